@@ -786,6 +786,20 @@ class StmtMixin:
             init, cont = start, (lambda i: i < stop)
             nxt = lambda i: i + step
             elem = lambda i, stx: V(T.INT, i)
+        elif kind == "enumerate" and coll.z[1].ty is T.PY and isinstance(coll.z[1].z, tuple) and coll.z[1].z[0] == "strgen":
+            # enumerate(<expr(char) for char in text>): position i, element expr(text[i])
+            _, gen, genv, text = coll.z[1].z
+            init, cont = z3.IntVal(0), (lambda i: i < z3.Length(text.z))
+            nxt = lambda i: i + 1
+
+            def elem(i, stx):
+                sk2 = []
+                e2 = dict(genv)
+                st_in = self.bind_target(gen.generators[0].target, V(T.STR, self.char_at(text.z, i)), stx.clone(env=e2), s)
+                rs = list(self.evx(gen.elt, st_in, sk2))
+                if len(rs) != 1 or sk2:
+                    raise Unsupported("generator element forks or raises", s)
+                return self.mk_tuple([V(T.INT, i), rs[0][1]])
         else:
             seq = coll.z[1]
             if not isinstance(seq.ty, T.ListT):
@@ -825,6 +839,12 @@ class StmtMixin:
             yield from self.exec_block(s.orelse, ex)
         else:
             yield Outcome("next", ex)
+
+    def char_at(self, text, i):
+        """the i-th character of a string as an opaque term (no string theory needed to talk about 'some character')"""
+        if not hasattr(self, "_char_at"):
+            self._char_at = z3.Function("char_at", z3.StringSort(), z3.IntSort(), z3.StringSort())
+        return self._char_at(text, i)
 
     def ex_While(self, s, st):
         idx, ls = self.loop_spec(s)
